@@ -210,6 +210,11 @@ theorem step_grows (k k' : List K) (s s' : State)
       | subsh b => simp only [step, Option.some.injEq, Prod.mk.injEq] at h; rw [← h.2]; exact Grows.refl _
       | andor l a r => simp only [step, Option.some.injEq, Prod.mk.injEq] at h; rw [← h.2]; exact Grows.refl _
       | neg c => simp only [step, Option.some.injEq, Prod.mk.injEq] at h; rw [← h.2]; exact Grows.refl _
+      | async c =>
+        simp only [step] at h
+        split at h <;> (simp only [Option.some.injEq, Prod.mk.injEq] at h; rw [← h.2])
+        · exact Grows.refl _
+        · exact setDesc_grows _ _
       | redir rs c =>
         simp only [step] at h
         split at h
@@ -279,6 +284,13 @@ theorem step_app_gen (k : List K) (s : State) (S : List Byte)
       | subsh b => rfl
       | andor l a r => rfl
       | neg c => rfl
+      | async c =>
+        simp only [step]
+        have hx : controlsJobs k0 (s.app S) = controlsJobs k0 s := rfl
+        rw [hx]
+        by_cases hc : controlsJobs k0 s = true
+        · simp only [hc, if_true]; rfl
+        · simp only [hc]; rfl
       | redir rs c =>
         simp only [step]
         rw [performIn_comm (fun s => s.app S) (fun _ => rfl) (app_comm_setDesc S)]
